@@ -2,7 +2,8 @@
 
  (a) spec/Machine.tla: thunk state machine; TLC checks EvalOnce / Demand; recorded thunk
      events of real runs are validated against spec/Trace_Machine.tla (see lib/machine.py)
- (b) spec/Rewrite.tla + MC_Rewrite.tla: for every program of the C02 slices and every site,
+ (b) spec/Rewrite.tla + MC_Rewrite.tla: for every program of the C02 slices (incl. the library slice
+     "lib": what std.reverse / foldr / flatMap / join / objectValues ... force) and every site,
      meaning-preserving rewrites (checked on the specification to preserve Sem's outcome)
      must leave the implementation's value / error message / std.trace output unchanged;
      probes (site replaced by `error "probe"`) must have the outcome Sem assigns
@@ -10,13 +11,16 @@
      replacing it by an error changes Sem's outcome) prints exactly once, the others never."""
 import json
 import os
+import re
 
 import vlib
 import semcmp
 from vlib import Check, run_tlc, tlc_must_pass, run_cases
 
 PROP = "C04"
-SLICES = ["lazy", "func", "obj", "comp", "str"]
+SLICES = ["lazy", "func", "obj", "comp", "str", "lib"]
+# programs per part of a slice: (quick, thorough); the lib slice has 17 parts
+SAMPLE = {"lib": (12, 120)}
 
 
 def cfg(slice_, sample, maxsites):
@@ -27,11 +31,15 @@ def cfg(slice_, sample, maxsites):
     return path
 
 
+STD_CALL = re.compile(r"std\.(\w+)\(")
+
+
 def rewrite_part(chk, tier, seed):
     cases, meta = [], []
     nprog = 0
+    slice_of = {}     # original program -> slice
     for sl in SLICES:
-        sample = 60 if tier == "quick" else 700
+        sample = SAMPLE.get(sl, (60, 700))[0 if tier == "quick" else 1]
         res = run_tlc("MC_Rewrite", cfg(sl, sample, 10 if tier == "quick" else 16), f"c04_rw_{sl}", workers=8,
                       seed=seed, timeout=3400, coverage=False)
         tlc_must_pass(res, f"Rewrite slice {sl} (law: rewrites preserve Sem's outcome)")
@@ -41,6 +49,7 @@ def rewrite_part(chk, tier, seed):
             if c["src"] in seen:
                 continue
             seen.add(c["src"])
+            slice_of[c["src"]] = sl
             nprog += 1
             for rw in c["rewrites"]:
                 cases.append({"k": "eval", "src": rw["src"], "manifest": "multi", "max_stack": 200})
@@ -65,8 +74,11 @@ def rewrite_part(chk, tier, seed):
             chk.disagree({"kind": kind, "class": "crash"}, f"`{case['src']}` crashed: {detail}", dict(case, expected=spec))
             continue
         if verdict == "disagree":
-            chk.disagree({"kind": kind, "class": "outcome-changed"},
-                         f"`{case['src']}` ({kind} of `{orig}`): {detail}", dict(case, expected=spec))
+            sig = {"kind": kind, "class": "outcome-changed"}
+            if slice_of.get(orig) == "lib":
+                sig.update(slice="lib", fn="+".join(sorted(set(STD_CALL.findall(orig)))),
+                           dir=f"spec-{spec[0]}/impl-{'ok' if 'ok' in r else 'err'}")
+            chk.disagree(sig, f"`{case['src']}` ({kind} of `{orig}`): {detail}", dict(case, expected=spec))
             continue
         if kind == "traced":
             must, may = demanded
